@@ -217,6 +217,23 @@ pub fn run(_a: &HashMap<String, String>) -> (usize, usize) {
         let _ = std::fs::remove_file(&marker);
         report("signal scope".to_string(), v);
     }
+    // a child that exits inside the last (clipped) back-off interval is still noticed at the deadline
+    {
+        let mut v = vec![];
+        let mut stale = 0;
+        for _ in 0..2 {
+            let mut p = child("sleep:245");
+            // status checks fall at 0,1,3,7,15,31,63,127,227 and 326 ms
+            if let Ok(None) = p.wait_timeout(Duration::from_millis(326)) {
+                stale += 1;
+            }
+            let _ = p.wait();
+        }
+        if stale == 2 {
+            v.push("C11/none-is-fresh: wait_timeout(326 ms) reported 'still running' for a child that exited ~80 ms before the deadline (no status check after the last sleep)".to_string());
+        }
+        report("exit in the last interval".to_string(), v);
+    }
     // poll never blocks; wait_timeout accuracy
     {
         let mut v = vec![];
